@@ -32,7 +32,7 @@ use zipora::succinct::rank_select::RankSelectInterleaved256;
 use zipora::RecordId;
 
 const HEADER: &str = r#"From ZV.Common Require Import Base Run.
-From ZV.C03 Require Import Model ModelStore ModelWrap ModelCached ModelDictZip ModelPlain ModelZero ModelCases.
+From ZV.C03 Require Import Model ModelStore ModelWrap ModelCached ModelDictZip ModelPlain ModelZero ModelBatch ModelNltb ModelCases.
 Open Scope N_scope.
 Definition case_t : Type := xcase.
 Definition ok (c : case_t) : bool := check_xcase c.
@@ -1452,6 +1452,7 @@ fn run_build(cx: &mut Ctx, case: &Value, _force_coq: bool) {
     let recs_coq = format!("[{}]", recs.iter().map(|d| coq_bytes(d)).collect::<Vec<_>>().join("; "));
     let plain_env_dir = cx.env.dir.clone();
     let mut refused = false;
+    b::COQ_OUT.with(|c| *c.borrow_mut() = None);
     let r = guarded(|| -> Option<String> {
         match kind {
             "zipoffset" | "zipoffset_batch" => {
@@ -1474,7 +1475,10 @@ fn run_build(cx: &mut Ctx, case: &Value, _force_coq: bool) {
                             if cfg.compress_level == 0 && small { coq_term = Some(format!("CZip {} {} false []", zcfg_coq(&cfg), recs_coq)); }
                             return None;
                         }
-                        if kind == "zipoffset_batch" && cfg.compress_level == 0 && zo_capacity_exceeded(&cfg, &stored_lens) { return None; }
+                        if kind == "zipoffset_batch" && cfg.compress_level == 0 && zo_capacity_exceeded(&cfg, &stored_lens) {
+                            if small { coq_term = Some(format!("XBatch {} {} {} false []", zcfg_coq(&cfg), case["batch"].as_u64().unwrap_or(4), batch_ops_coq(&recs))); }
+                            return None;
+                        }
                         if kind == "zipoffset_batch" && cfg.compress_level > 0 && e.contains("too large") { return None; }
                         return Some(format!("finish() failed: {}", e));
                     }
@@ -1487,6 +1491,9 @@ fn run_build(cx: &mut Ctx, case: &Value, _force_coq: bool) {
                 if let Some(m) = check_built(&loaded, &recs, "after save->load") { return Some(m); }
                 if kind == "zipoffset" && cfg.compress_level == 0 && small && bytes.len() <= 2600 {
                     coq_term = Some(format!("CZip {} {} true {}", zcfg_coq(&cfg), recs_coq, coq_bytes(&bytes)));
+                }
+                if kind == "zipoffset_batch" && cfg.compress_level == 0 && small && bytes.len() <= 2600 {
+                    coq_term = Some(format!("XBatch {} {} {} true {}", zcfg_coq(&cfg), case["batch"].as_u64().unwrap_or(4), batch_ops_coq(&recs), coq_bytes(&bytes)));
                 }
                 // the loaded store goes through the secondary entry points as well (its configuration was rebuilt from the header)
                 if plan % 2 == 1 { if let Some(m) = b::zipoffset_extras(loaded, &recs, plan / 2, &plain_env_dir) { return Some(format!("loaded store: {}", m)); } }
@@ -1643,6 +1650,7 @@ fn run_build(cx: &mut Ctx, case: &Value, _force_coq: bool) {
             }
             "nlt_builder" => {
                 let cfg = match cfgname { "perf" => TrieBlobStoreConfig::performance_optimized(), "mem" => TrieBlobStoreConfig::memory_optimized(), "sec" => TrieBlobStoreConfig::security_optimized(), _ => TrieBlobStoreConfig::default() };
+                let sorts = cfg.enable_batch_optimization;
                 let mut b = match NestLoudsTrieBlobStoreBuilder::<RankSelectInterleaved256>::new(cfg) { Ok(b) => b, Err(e) => return Some(format!("builder construction failed: {}", e)) };
                 let keys: Vec<Vec<u8>> = (0..recs.len()).map(|i| format!("k{:04}", (i * 7919) % 10007).into_bytes()).collect();
                 for (k, d) in keys.iter().zip(recs.iter()) { if let Err(e) = b.add(k, d) { return Some(format!("add failed: {}", e)); } }
@@ -1657,12 +1665,14 @@ fn run_build(cx: &mut Ctx, case: &Value, _force_coq: bool) {
                 if got != want { return Some("records under ids 0..n are not the records added".to_string()); }
                 if s.len() != recs.len() { return Some(format!("len() = {} but {} records were added", s.len(), recs.len())); }
                 if s.get(recs.len() as RecordId).is_ok() || s.contains(recs.len() as RecordId) { return Some("id n reported present".into()); }
+                coq_term = b::nltb_coq_case(sorts, &keys, &recs, &mut s);
                 None
             }
             _ => Some(format!("unknown build cell {}", kind)),
         }
     });
     match r { Ok(x) => failure = x, Err(p) => failure = Some(format!("panicked: {}", p)) }
+    if coq_term.is_none() && failure.is_none() { coq_term = b::COQ_OUT.with(|c| c.borrow_mut().take()); }
     if refused { cx.sum.dist(&format!("builder_refusals:{}", kind)); }
     if let Some(m) = failure {
         let class = if kind == "memory_seeded" && seeded_wraps(case) { Some("memory_id_wraparound") } else if kind == "plain_seeded" && seeded_wraps(case) { Some("plain_id_wraparound") } else { None };
@@ -1670,8 +1680,13 @@ fn run_build(cx: &mut Ctx, case: &Value, _force_coq: bool) {
         // the model predicts the panic of new() as well
         if let (Some(t), true) = (coq_term, kind == "plain_seeded" && class.is_some()) { cx.shards.push(t, case.clone()); }
     } else if let Some(t) = coq_term {
-        if _force_coq || cx.shards.len() < cx.budget { cx.shards.push(if t.starts_with("XPlainOpen") { t } else { format!("XOld ({})", t) }, case.clone()); }
+        if _force_coq || cx.shards.len() < cx.budget { cx.shards.push(if t.starts_with('X') { t } else { format!("XOld ({})", t) }, case.clone()); }
     }
+}
+
+/// the add_record / flush_batch calls the batch-builder helper made, as a `list bop`
+fn batch_ops_coq(recs: &[Vec<u8>]) -> String {
+    b::BATCH_OPS.with(|o| format!("[{}]", o.borrow().iter().map(|x| match x { Some(i) => format!("BAdd {}", coq_bytes(&recs[*i])), None => "BFlush".to_string() }).collect::<Vec<_>>().join("; ")))
 }
 
 fn zcfg_coq(c: &ZipOffsetBlobStoreConfig) -> String {
